@@ -27,6 +27,7 @@ type PropSpec struct {
 	Kinds      []string `json:"kinds"`       // obligation kinds claimed (empty = all)
 	SweepKinds []string `json:"sweep_kinds"` // kinds claimed for functions reached only by the sweep
 	ExcludeObligations []string `json:"exclude_obligations"` // obligations of the listed functions that belong to another property
+	OnlyObligations map[string][]string `json:"only_obligations"` // function-name substring -> the only obligations (substrings) of it this property claims
 	Lemmas     []string `json:"lemmas"`
 	Trusted    []string `json:"trusted_base"`
 	Uncovered  []string `json:"uncovered"`
@@ -318,6 +319,15 @@ func discharge(g *group, timeoutS int, all bool) *ObligResult {
 			res.Model = r.Model
 			return res
 		default:
+			if j-i > 1 {
+				// the disjunction over paths was too much for one query:
+				// decide every path on its own
+				if sub := dischargeEach(disj[i:j], want, timeoutS, all, res); sub == "unsat" {
+					continue
+				} else if sub == "sat" {
+					return res
+				}
+			}
 			res.Result = "undecided"
 			res.Backend = fmt.Sprintf("%v", r.All)
 			return res
@@ -325,6 +335,54 @@ func discharge(g *group, timeoutS int, all bool) *ObligResult {
 	}
 	res.Result = "discharged"
 	return res
+}
+
+// dischargeEach decides the paths of one obligation one query per path.
+func dischargeEach(disj []*Term, want []*Term, timeoutS int, all bool, res *ObligResult) string {
+	type one struct {
+		q string
+		r SolverResult
+	}
+	out := make([]one, len(disj))
+	var wg sync.WaitGroup
+	for i := range disj {
+		wg.Add(1)
+		go func(i int) {
+			defer wg.Done()
+			q := buildQuery([]*Term{disj[i]}, want)
+			out[i] = one{q, Solve(q, timeoutS, all)}
+		}(i)
+	}
+	wg.Wait()
+	status := "unsat"
+	var maxMs int64
+	for i, o := range out {
+		if o.r.Ms > maxMs {
+			maxMs = o.r.Ms
+		}
+		switch o.r.Status {
+		case "unsat":
+			res.Backend = o.r.Backend + " (per path)"
+		case "sat":
+			res.Ms += maxMs
+			res.Result = "failed"
+			res.Model = o.r.Model
+			res.Backend = o.r.Backend
+			res.query = o.q
+			res.raw = o.r.Raw
+			return "sat"
+		default:
+			status = "unknown"
+			res.query = o.q
+			res.raw = o.r.Raw
+			if os.Getenv("GOVC_DEBUG") != "" {
+				fmt.Fprintf(os.Stderr, "per-path %d: %v\n", i, o.r.All)
+				os.WriteFile(fmt.Sprintf("/tmp/govc-path-%d.smt2", i), []byte(o.q), 0o644)
+			}
+		}
+	}
+	res.Ms += maxMs
+	return status
 }
 
 type Evidence struct {
@@ -461,6 +519,19 @@ func checkProperty(id, tier string) int {
 			for _, ex := range prop.ExcludeObligations {
 				if strings.Contains(o.Name, ex) {
 					skip = true
+				}
+			}
+			for fnSub, keep := range prop.OnlyObligations {
+				if strings.Contains(o.Name, fnSub) {
+					hit := false
+					for _, kp := range keep {
+						if strings.Contains(o.Name, kp) {
+							hit = true
+						}
+					}
+					if !hit {
+						skip = true
+					}
 				}
 			}
 			if skip {
